@@ -226,6 +226,7 @@ package aper
 //@ ensures refusebig: vc.Imp(valueRange >= 1 && valueRange <= 65536 && value >= 65536, err != nil)
 //@ ensures einv: vcEInv(pd)
 //@ ensures grows: vcBitLen(pd) >= b0 && vcBitLen(pd) <= b0+7+16
+//@ ensures accept: vc.Imp(valueRange >= 1 && valueRange <= 65536 && value < uint64(valueRange), err == nil)
 //@ ensures field: vc.Imp(err == nil && valueRange <= 255, vcBitLen(pd) == b0+uint64(per.FieldWidth(valueRange)))
 //@ ensures octets: vc.Imp(err == nil && valueRange >= 256, pd.bitsOffset == 0 && uint64(len(pd.bytes)) == (b0+7)>>3+uint64(per.OctetsFor(valueRange)))
 //@ ensures prefix: vc.Forall(0, int(b0>>3), func(t int) bool { return pd.bytes[t] == old0[t] })
@@ -242,6 +243,9 @@ package aper
 //@ ensures einv: vcEInv(pd)
 //@ ensures grows: vcBitLen(pd) >= b0 && vcBitLen(pd) <= b0+7+16
 //@ ensures refusebig: vc.Imp(sizeRange >= 1 && sizeRange <= 65536 && value >= 65536, err != nil)
+//@ ensures accept: vc.Imp(sizeRange >= 1 && sizeRange <= 65536 && value < uint64(sizeRange), err == nil)
+//@ ensures field: vc.Imp(err == nil && sizeRange >= 1 && sizeRange <= 255, vcBitLen(pd) == b0+uint64(per.FieldWidth(sizeRange)))
+//@ ensures octets: vc.Imp(err == nil && sizeRange >= 256 && sizeRange <= 65536, pd.bitsOffset == 0 && uint64(len(pd.bytes)) == (b0+7)>>3+uint64(per.OctetsFor(sizeRange)))
 //@ ensures unconstrained: vc.Imp(!(sizeRange <= 65536 && sizeRange > 0), err == nil && pd.bitsOffset == 0 && uint64(len(pd.bytes)) == (b0+7)>>3+uint64(per.LengthOctets(value)))
 //@ ensures prefix: vc.Forall(0, int(b0>>3), func(t int) bool { return pd.bytes[t] == old0[t] })
 //@ assigns &pd.bytes, &pd.bitsOffset
@@ -333,6 +337,15 @@ package aper
 //@ ensures offset: pd.bitsOffset <= 7 && (pd.bitsOffset == 0 || len(pd.bytes) > 0)
 //@ ensures fixed2: vc.Imp(result == nil && upperBoundPtr != nil && !extensive && *lowerBoundPtr == *upperBoundPtr && *upperBoundPtr <= 2, vcBitLen(pd) == b0+8*uint64(len(bytes)))
 //@ ensures fixedn: vc.Imp(result == nil && upperBoundPtr != nil && !extensive && *lowerBoundPtr == *upperBoundPtr && *upperBoundPtr > 2 && *upperBoundPtr < 65536, pd.bitsOffset == 0 && uint64(len(pd.bytes)) == (b0+7)>>3+uint64(len(bytes)))
+// Bit counts of the variable-size forms (X.691 17.8 with 10.9): no size constraint — aligned length
+// determinant of one or two octets, then the octets; a size range of at most 255 values — the length
+// minus the lower bound in a bit field, then (if there are any) the octets, aligned; a size outside an
+// extensible constraint — extension bit, then as without a constraint.
+//@ ensures unc: vc.Imp(lowerBoundPtr == nil, result == nil && pd.bitsOffset == 0 && uint64(len(pd.bytes)) == (b0+7)>>3+uint64(per.LengthOctets(uint64(len(bytes))))+uint64(len(bytes)))
+//@ ensures var: vc.Imp(lowerBoundPtr != nil && !extensive && *lowerBoundPtr < *upperBoundPtr && *upperBoundPtr-*lowerBoundPtr < 255 && *lowerBoundPtr <= int64(len(bytes)) && int64(len(bytes)) <= *upperBoundPtr && len(bytes) > 0, result == nil && pd.bitsOffset == 0 && uint64(len(pd.bytes)) == (b0+uint64(per.FieldWidth(*upperBoundPtr-*lowerBoundPtr+1))+7)>>3+uint64(len(bytes)))
+//@ ensures varext: vc.Imp(lowerBoundPtr != nil && extensive && *lowerBoundPtr < *upperBoundPtr && *upperBoundPtr-*lowerBoundPtr < 255 && *lowerBoundPtr <= int64(len(bytes)) && int64(len(bytes)) <= *upperBoundPtr && len(bytes) > 0, result == nil && pd.bitsOffset == 0 && uint64(len(pd.bytes)) == (b0+1+uint64(per.FieldWidth(*upperBoundPtr-*lowerBoundPtr+1))+7)>>3+uint64(len(bytes)))
+//@ ensures var0: vc.Imp(lowerBoundPtr != nil && *lowerBoundPtr == 0 && 0 < *upperBoundPtr && *upperBoundPtr < 255 && len(bytes) == 0, result == nil && vcBitLen(pd) == b0+vcB2U(extensive)+uint64(per.FieldWidth(*upperBoundPtr+1)))
+//@ ensures ext: vc.Imp(lowerBoundPtr != nil && extensive && int64(len(bytes)) > *upperBoundPtr && *upperBoundPtr < 65536, result == nil && pd.bitsOffset == 0 && uint64(len(pd.bytes)) == (b0+1+7)>>3+uint64(per.LengthOctets(uint64(len(bytes))))+uint64(len(bytes)))
 //@ assigns &pd.bytes, &pd.bitsOffset
 //@ loop rawLength unroll 2
 
@@ -355,5 +368,11 @@ package aper
 //@ ensures offset: pd.bitsOffset <= 7 && (pd.bitsOffset == 0 || len(pd.bytes) > 0)
 //@ ensures fixed16: vc.Imp(err == nil && r == 1 && !extensive && bitsLength <= 16, vcBitLen(pd) == b0+bitsLength)
 //@ ensures fixedn: vc.Imp(err == nil && r == 1 && !extensive && bitsLength > 16, vcBitLen(pd) == ((b0+7)>>3)*8+bitsLength)
+// Bit counts of the variable-size forms (X.691 16.11 with 10.9), as for OCTET STRING but counted in bits.
+//@ ensures unc: vc.Imp(lowerBoundPtr == nil, err == nil && vcBitLen(pd) == ((b0+7)>>3+uint64(per.LengthOctets(bitsLength)))*8+bitsLength)
+//@ ensures var: vc.Imp(lowerBoundPtr != nil && !extensive && *lowerBoundPtr < *upperBoundPtr && *upperBoundPtr-*lowerBoundPtr < 255 && uint64(*lowerBoundPtr) <= bitsLength && bitsLength <= uint64(*upperBoundPtr) && bitsLength > 0, err == nil && vcBitLen(pd) == ((b0+uint64(per.FieldWidth(*upperBoundPtr-*lowerBoundPtr+1))+7)>>3)*8+bitsLength)
+// (the same count after an extension bit is proved for OCTET STRING only: for BIT STRING the query takes over 20 s)
+//@ ensures var0: vc.Imp(lowerBoundPtr != nil && *lowerBoundPtr == 0 && 0 < *upperBoundPtr && *upperBoundPtr < 255 && bitsLength == 0, err == nil && vcBitLen(pd) == b0+vcB2U(extensive)+uint64(per.FieldWidth(*upperBoundPtr+1)))
+//@ ensures ext: vc.Imp(lowerBoundPtr != nil && extensive && bitsLength > uint64(*upperBoundPtr) && *upperBoundPtr < 65536, err == nil && vcBitLen(pd) == ((b0+1+7)>>3+uint64(per.LengthOctets(bitsLength)))*8+bitsLength)
 //@ assigns &pd.bytes, &pd.bitsOffset, bytes
 //@ loop rawLength unroll 2
